@@ -36,3 +36,18 @@ package security
 //@   ensures [unknown-key] result1 == nil ==> calls(DecryptBase64) == 1 && ret(DecryptBase64, 1) == nil && ret(DecodeString, 1) == nil && ret(strconv.Atoi, 1) == nil && result0 != nil
 //@   ensures [decrypt-error] calls(DecryptBase64) == 1 && ret(DecryptBase64, 1) != nil ==> result1 == ErrInvalidSecret && result0 == nil
 //@   ensures [error-means-no-header] result1 != nil ==> result0 == nil
+
+// What is signed: the request's own path and raw query - or, behind a proxy that sets X-Request-Uri, the path and
+// query of that URI when it parses; and the SHA-256 of the whole body, the body being restored for the handler.
+//@ func getPathQuery
+//@   prop C04
+//@   requires r != nil && r.URL != nil
+//@   ensures [own-url] len(ret(Get)) == 0 ==> result0 == r.URL.Path && result1 == r.URL.RawQuery && calls(url.Parse) == 0
+//@   ensures [forwarded-uri] len(ret(Get)) > 0 && ret(url.Parse, 1) == nil && ret(url.Parse, 0) != nil ==> result0 == ret(url.Parse, 0).Path && result1 == ret(url.Parse, 0).RawQuery && arg(url.Parse, 0) == ret(Get)
+//@   ensures [unparsable-falls-back] len(ret(Get)) > 0 && ret(url.Parse, 1) != nil ==> result0 == r.URL.Path && result1 == r.URL.RawQuery
+//@ func computeBodySignature
+//@   prop C04
+//@   opaque DupReadCloser, Sprintf
+//@   requires r != nil
+//@   ensures [hash-of-the-whole-body] calls(iox.DupReadCloser, old(r.Body)) == 1 && calls(io.Copy) == 1 && arg(io.Copy, 1) == ret(DupReadCloser, 0) && calls(sha256.New) == 1 && arg(io.Copy, 0) == ret(sha256.New) && result == ret(Sprintf)
+//@   ensures [body-restored-for-the-handler] r.Body == ret(DupReadCloser, 1)
